@@ -196,6 +196,16 @@ pub fn warm_up(t: &RefPos) {
             let _ = (is_cell_attacked(&b, sq_to_lib(s), c), cell_attackers(&b, sq_to_lib(s), c));
         }
     }
+    // the last word goes to the twin itself, not to one of its successors
+    let _ = (b.has_legal_moves(), b.is_check(), legal::gen_all(&b).len(), b.calc_outcome());
+    if let Some(m) = l.first() {
+        let _ = m.validate(&b);
+        if let Ok(s) = m.san(&b) {
+            let text = s.to_string();
+            let _ = b.has_legal_moves();
+            let _ = Move::from_san(&text, &b);
+        }
+    }
 }
 
 
